@@ -79,10 +79,18 @@ def gen_cases(ctx):
                 cases.append(dict(cfg=dict(nworkers=nw, extracache=ec, skipNone=True, maxtasksperchild=None), n=n, tail=None,
                                   table=[['u'] if i % 3 else ['n'] for i in range(n)], fkind='module', kwargs={},
                                   schedule=dict(priority=list(prio), quiet_ms=15), label='enumerated'))
+    # long runs of dropped results (a filter that passes a handful of thousands of elements): in-process and parallel
+    for nw in (0, 2):
+        n = 2600
+        cases.append(dict(cfg=dict(nworkers=nw, extracache=1, skipNone=True, maxtasksperchild=None, verbose=False), n=n, tail=None,
+                          table=[['u'] if i % 1300 == 1299 else ['n'] for i in range(n)], fkind='module', kwargs={}, schedule=None,
+                          label='long-none-run', timeout=60))
     for c in cases:
         c['demand'] = ['N*']
         if c['label'] != 'corpus' and rng.random() < 0.3:
             c['hint'] = rng.choice(pipelib.HINTS)      # the source also has a __length_hint__, right or wrong
+        if c['label'] != 'corpus' and rng.random() < 0.15:
+            c['unprintable_elements'] = True           # elements whose repr()/str() raise: the stage has no business printing them
         if c['label'] != 'corpus' and rng.random() < 0.2:
             c['library_warnings_are_errors'] = True    # as under `python -W error`: a warning the library raises is an exception
     return cases
